@@ -875,6 +875,12 @@ class FillNode(BaseNode):
             if "forloop" in layer:
                 layer = layer.copy()
                 layer["forloop"] = layer["forloop"].copy()
+                # `parentloop` is the live dict of the enclosing loop, which keeps changing as that loop
+                # goes on, while the fill may be rendered later. So we copy the whole chain.
+                curr_forloop = layer["forloop"]
+                while "parentloop" in curr_forloop:
+                    curr_forloop["parentloop"] = curr_forloop["parentloop"].copy()
+                    curr_forloop = curr_forloop["parentloop"]
                 data.extra_context.update(layer)
 
         collected_fills.append(data)
